@@ -11,11 +11,11 @@ import (
 const ZZ = "github.com/filecoin-project/go-data-transfer/v2/zzverif"
 
 type ctxObj struct {
-	parent   *ctxObj
-	done     *Chan // nil for background
-	err      Value // Iface
-	children []*ctxObj
-	timer    *timerObj
+	parent      *ctxObj
+	done        *Chan // nil for background
+	err         Value // Iface
+	children    []*ctxObj
+	timer       *timerObj
 	hasDeadline bool
 }
 
